@@ -44,6 +44,18 @@ import (
 )
 
 func main() {
+	// translator mode: C07_GEN=<path of Gen/ToJsonCases.lean>  (the library tree is $VERIF_REPO, default /repo)
+	if target := os.Getenv("C07_GEN"); target != "" {
+		repo := os.Getenv("VERIF_REPO")
+		if repo == "" {
+			repo = "/repo"
+		}
+		if err := genCases(repo, target); err != nil {
+			fmt.Fprintln(os.Stderr, "translator error:", err)
+			os.Exit(4)
+		}
+		return
+	}
 	if err := runC07(hx.ParseFlags()); err != nil {
 		fmt.Fprintln(os.Stderr, "harness error:", err)
 		os.Exit(3)
